@@ -8,6 +8,7 @@ import (
 	"context"
 	"encoding/json"
 	"fmt"
+	"io"
 	"os"
 	"reflect"
 	"sort"
@@ -599,8 +600,15 @@ func semRun(p semProg, cf semCfg, src string) (obs string, compileErr error, pan
 	for _, a := range p.Args {
 		args = append(args, semValueObj(a.(N)))
 	}
+	// printed output is part of the observation (only when there is any)
+	var printed bytes.Buffer
+	ugo.PrintWriter = &printed
+	defer func() { ugo.PrintWriter = io.Discard }()
 	vm := ugo.NewVM(bc)
 	ret, rerr := vm.Run(g, args...)
+	if cf.Twice || cf.VM2 {
+		printed.Reset()
+	}
 	if cf.Twice {
 		// a cleared VM starts the second run with an empty module cache
 		vm.Clear()
@@ -628,6 +636,9 @@ func semRun(p semProg, cf semCfg, src string) (obs string, compileErr error, pan
 		if k != "log" && !strings.HasPrefix(k, "cb") {
 			gl[k] = semObj(v)
 		}
+	}
+	if printed.Len() > 0 {
+		return canonS([]any{o, logv, gl, N{"printed": printed.String()}}), nil, nil
 	}
 	return canonS([]any{o, logv, gl}), nil, nil
 }
